@@ -18,8 +18,9 @@ pub fn dispatch(cmd: &str, args: &Args) -> Option<i32> {
 }
 
 fn fname(i: usize) -> String {
-    // letters only: a file name ends at the first space or non-character token
-    let mut s = String::from("f");
+    // a file name ends at the first space or non-character token (TeX.2021.526): characters of every other
+    // category belong to it, so some names carry a subscript, alignment or math-shift character
+    let mut s = String::from(["f", "f", "f_", "f&", "f", "f$", "f_x"][i % 7]);
     let mut n = i;
     loop {
         s.push((b'a' + (n % 26) as u8) as char);
@@ -238,8 +239,9 @@ pub fn files_events(args: &Args) -> i32 {
         }
         out.line(&run_tree(&files, rng.next() | (i as u64 & 1)));
     }
-    // chains: depth 5, 50, 90 (must work) and 150 (must fail); the exact boundary near 100 is not probed
-    for depth in [5usize, 50, 90, 150] {
+    // chains: depth 5, 50, 90 and 99 (100 files open at once, the documented limit: must work) and 150 (must fail);
+    // one more than 99 is where the two readings of "100" part and is not probed
+    for depth in [5usize, 50, 90, 99, 150] {
         let mut files: Vec<Value> = vec![];
         for k in 1..=(depth + 1) {
             if k <= depth {
